@@ -17,6 +17,7 @@ CONSTANTS
   Configs <- MConfigs
   MaxFaults = %(maxfaults)d
   MaxChanges = %(maxchanges)d
+  InvalidateFirst = %(inval)s
 INVARIANTS %(invs)s
 CHECK_DEADLOCK FALSE
 '''
@@ -27,7 +28,8 @@ CONSTANTS
   Configs <- MConfigs
   MaxFaults = 1000000
   MaxChanges = 1000000
-INVARIANTS RecordAfterAlters ConvergedModuloRevert RerunIsNoOp
+  InvalidateFirst = TRUE
+INVARIANTS RecordAfterAlters Converged RerunIsNoOp
 CONSTRAINT Accept
 %(diag)s
 CHECK_DEADLOCK FALSE
@@ -56,8 +58,8 @@ def run(tier):
             raise vlib.Infra('could not read the 8 setting groups off a recorded Rotate run: %s' % groups)
         # 1. model checking with the code's key assignment
         open(os.path.join(sd, 'MC_Rotate.tla'), 'w').write(data_module('MC_Rotate', 'Rotate', groups, configs[:4] if tier == 'quick' else configs[:6]))
-        def mc_run(invs, maxfaults, maxchanges):
-            open(os.path.join(sd, 'MC_Rotate.cfg'), 'w').write(CFG_MC % {'maxfaults': maxfaults, 'maxchanges': maxchanges, 'invs': invs})
+        def mc_run(invs, maxfaults, maxchanges, inval=True):
+            open(os.path.join(sd, 'MC_Rotate.cfg'), 'w').write(CFG_MC % {'maxfaults': maxfaults, 'maxchanges': maxchanges, 'invs': invs, 'inval': 'TRUE' if inval else 'FALSE'})
             dump = os.path.join(sd, 'cex.json')
             if os.path.exists(dump):
                 os.remove(dump)
@@ -75,12 +77,15 @@ def run(tier):
             vlib.tlc_cleanup(res)
             m['candidate'] = cand
             return m
-        # 1a. everything the property demands except the one recorded divergence (see ConvergedModuloRevert)
-        mc = mc_run('RecordAfterAlters ConvergedModuloRevert RerunIsNoOp', 1 if tier == 'quick' else 2, 1 if tier == 'quick' else 2)
+        # 1a. the design as coded (the marker is cleared before the first ALTER of a group): the property as stated
+        mc = mc_run('RecordAfterAlters Converged RerunIsNoOp', 1 if tier == 'quick' else 2, 2)
         candidate = mc['candidate']
-        # 1b. the property as stated: TLC finds the revert-after-interrupted-change history; it must be the real code's too
-        mc_strict = mc_run('Converged', 1, 2)
-        strict_candidate = mc_strict['candidate']
+        # 1b. mutation: without the clearing TLC must find the revert-after-interrupted-change history (the defect repaired in
+        #     rotate.go; kept so that Converged is known not to be vacuous)
+        mc_strict = mc_run('Converged', 1, 2, inval=False)
+        if not mc_strict['candidate']:
+            raise vlib.Infra('Rotate.tla with InvalidateFirst = FALSE violates nothing: Converged is vacuous in this configuration')
+        strict_candidate = None
         # 2. sweep of the real code
         swp = os.path.join(sd, 'sweep.json')
         trp = os.path.join(sd, 'trace.ndjson')
@@ -98,13 +103,7 @@ def run(tier):
                 viols.append({'property': 'C19', 'signature': c['signature'], 'msg': c['violation'], 'replay': path})
             elif sample is None and len(c['runs']) > 3:
                 sample = c
-        revert_real = {x for x in sigs_real if x.startswith('revert-after-interrupted-change')}
-        if strict_candidate and not revert_real and not (sigs_real - revert_real):
-            raise vlib.Infra('TLC reports %s on Rotate.tla (%s) but no run of the real Rotate reproduces it: the specification misrepresents the code'
-                             % (strict_candidate['invariant'], json.dumps(strict_candidate)))
-        if revert_real and not strict_candidate:
-            raise vlib.Infra('the real Rotate diverges after a reverted interrupted change but Rotate.tla does not: the specification misrepresents the code')
-        sigs_real = sigs_real - revert_real
+        # (a revert-after-interrupted-change divergence of the real code is a plain violation again: the design as coded excludes it)
         if candidate and not sigs_real:
             raise vlib.Infra('TLC reports %s on Rotate.tla (%s) but no run of the real Rotate reproduces it: the specification misrepresents the code'
                              % (candidate['invariant'], json.dumps(candidate)))
@@ -126,7 +125,7 @@ def run(tier):
                           'msg': 'statement log of the real Rotate is not a behaviour of Rotate.tla / violates an invariant: %s' % json.dumps(detail)[:400]})
         cov = {'states': mc['states'], 'transitions': mc['transitions'], 'traces_validated_against_impl': ntr,
                'samples': [sample or sweep['cases'][0], {'groups_with_keys_from_the_code': groups}],
-               'exhaustive': True, 'model_check': mc, 'model_check_strict_converged': mc_strict,
+               'exhaustive': True, 'model_check': mc, 'mutation_without_invalidation': mc_strict,
                'sweep': {'cases': len(sweep['cases']), 'events': sweep.get('events')},
                'trace_validation': {'accepted': ok, 'tlc': st, 'detail': detail},
                'checker_cmd': 'c19 groups -> tlc MC_Rotate; c19 sweep -> semantic TTL/policy checks + tlc Trace_Rotate'}
